@@ -16,6 +16,11 @@ def run(report, tier):
         "only under the stated induction argument: after each step the instance is observationally equal to a fresh one",
         "the in-place modification uses a sentinel value (no symbolic data is left once the pair of operations is chosen)",
     ]
+    if thorough:
+        chrun.run_harness(report, Harness(
+            name="seq3", module="harness.c08", body="body_seq3", sig="sel: int", n_sel=H.N_SEQ3, concrete_body=True,
+            claim="as A[seq] for every ordered triple of query call shapes", bounds=f"{len(H.TEXTS)} texts x {H.N_OPS}^3 ordered triples",
+            functions=FUNCS, timeout=2400, sample={"ops": 3}))
     hs = [
         Harness(name="seq", module="harness.c08", body="body_seq", sig="sel: int", n_sel=H.N_SEQ, concrete_body=True,
                 claim="for every ordered pair of public queries (28 call shapes incl. chain building with/without stable particles, mode "
